@@ -2,8 +2,8 @@ package checks
 
 import (
 	"fmt"
-	"os"
 	"math/rand"
+	"os"
 
 	"verif/harness/graph"
 
